@@ -688,12 +688,20 @@ pub fn run_plan(plan: &SchedPlan, shared: &Shared, ref_shared: &Shared, refs: &m
                     }
                     match expected {
                         Some(Outcome::Image(e)) => {
-                            if e != img && violation.is_none() {
-                                violation = Some(mk(
-                                    if plan.focus == "wnaf" { "c02/reused-context-equals-fresh-context" } else { "c20/bit-identical-to-isolated-evaluation" },
-                                    short(e),
-                                    short(img),
-                                ));
+                            if e != img {
+                                let has_mul_claims = claims.iter().any(|c| matches!(c, Claim::Mul { .. }));
+                                if plan.focus == "wnaf" && cfg.check_mul_claims && has_mul_claims {
+                                    // C02 speaks about the point returned, not its projective representation:
+                                    // every result of this operation is compared with the affine reference
+                                    // below, which decides; a mere representation difference is C20's business
+                                    cnt.inc("probe_bits_differ_from_fresh_context_point_decided_by_reference");
+                                } else if violation.is_none() {
+                                    violation = Some(mk(
+                                        if plan.focus == "wnaf" { "c02/reused-state-equals-fresh-state" } else { "c20/bit-identical-to-isolated-evaluation" },
+                                        short(e),
+                                        short(img),
+                                    ));
+                                }
                             }
                         }
                         Some(Outcome::LibPanic(m)) => {
@@ -714,6 +722,7 @@ pub fn run_plan(plan: &SchedPlan, shared: &Shared, ref_shared: &Shared, refs: &m
                     }
                     let same = matches!(expected, Some(Outcome::LibPanic(_)));
                     if !same && violation.is_none() {
+                        // panics here, returns a value in isolation: the behaviour depends on history / concurrency
                         violation = Some(mk(
                             "c20/no-unexpected-panic",
                             match expected {
@@ -723,10 +732,13 @@ pub fn run_plan(plan: &SchedPlan, shared: &Shared, ref_shared: &Shared, refs: &m
                             format!("library panicked: {}", m),
                         ));
                     }
-                    if same && violation.is_none() && plan.focus != "c20-allow-panics" {
-                        // panics in isolation too: a deterministic function of its arguments, but
-                        // only catalogued expected-panic operations may panic at all
-                        violation = Some(mk("c20/no-unexpected-panic", "a result (operation is not an expected-panic operation)".into(), format!("library panicked (also in isolation): {}", m)));
+                    if same {
+                        // panics in isolation too: a deterministic function of its arguments, which C20 does
+                        // not forbid; the scalar-multiplication paths, however, must return [k]P (C02)
+                        cnt.inc("probe_operation_panics_deterministically");
+                        if plan.focus == "wnaf" && violation.is_none() {
+                            violation = Some(mk("c02/multiplication-paths-return-a-point", "[k]P".into(), format!("library panicked (also on fresh state): {}", m)));
+                        }
                     }
                 }
                 Outcome::HarnessDied => {
